@@ -273,6 +273,14 @@ class Symx:
                 idx.insert(0, self.sym(b['idx'], st))
                 b = b['base']
             return Function('%s.%s' % (self.lv_name(b), e['name']), real=True)(*idx)
+        if k == 'Member' and strip(e['base']).get('k') == 'Ref' and not e.get('method'):
+            # a field of a variable that stands for an element of a container (a lambda / loop parameter bound to X(i)):
+            # the same term as X[i].field
+            bk_ = self.lv_key(strip(e['base']))
+            bv_ = st.env.get(bk_) if bk_ is not None else None
+            if isinstance(bv_, sp.core.function.AppliedUndef) and not bv_.func.__name__.startswith(('F:', 'op', 'new:', 'm:', 'libphysica::', 'std::')) \
+                    and self.lv_key(e) not in st.env:
+                return Function('%s.%s' % (bv_.func.__name__, e['name']), real=True)(*bv_.args)
         if k == 'Ref' or k == 'Member':
             key = self.lv_key(e)
             if key is not None and key in st.env:
